@@ -390,7 +390,10 @@ def r5_serial_flush(ck, cx):
             return ['NotImplementedError']
         return []
     n = 0
-    for p in cx.enum(f, c, max_depth=0, may_raise=may_raise):
+    # private helper methods of the client (a drain factored out of _send) are part of _send; _in_waiting stays a call (it is the
+    # operation that may be unsupported)
+    res = SelfResolver(cx.idx, stop=lambda fn_: fn_.cls is None or not fn_.name.startswith('_') or fn_.name.startswith('__') or fn_.name in ('_in_waiting', '_send', '_recv', '_wait_for_data'))
+    for p in cx.enum(f, c, max_depth=2, may_raise=may_raise, resolver=res):
         annotate(p, heap=False)
         wr = [i for i, ev in enumerate(p.ev) if ev.kind == 'call' and callee_name(ev.node) == 'write' and 'socket' in U(ev._sub.func.value)]
         if not wr:
